@@ -492,27 +492,81 @@ func genEnv(r *core.Rand, hosts ...string) envT {
 
 var keywords = []string{"PROXY", "HTTP", "HTTPS", "SOCKS", "SOCKS4", "SOCKS5", "DIRECT", "proxy", "Proxy", "socks5", "direct", "FOO", "PROXYS", "SOCKS6", ""}
 
-func genHostPort(r *core.Rand) string {
-	if r.Chance(55) { // a valid address
-		return core.Pick(r, []string{"proxy.example.com", "p", "10.0.0.1", "localhost", "a-b.c", "[::1]", "[2001:db8::1]", "w3proxy.netscape.com"}) +
-			":" + core.Pick(r, []string{"80", "8080", "3128", "1080", "443", "1", "65535", "0"})
+var (
+	goodHosts = []string{"proxy.example.com", "p", "10.0.0.1", "localhost", "a-b.c", "[::1]", "[2001:db8::1]", "w3proxy.netscape.com"}
+	goodPorts = []string{"80", "8080", "3128", "1080", "443", "1", "65535", "0"}
+)
+
+// genPortText: the port part of an address. About half are ordinary ports; the rest are the shapes
+// parseProxy has to refuse (empty, not a number, out of range, signed, blanks) and the edge of what
+// it has to accept (65535, leading zeros, digit strings of any length).
+func genPortText(r *core.Rand) string {
+	switch r.Intn(20) {
+	case 0, 1:
+		return "" // empty port
+	case 2:
+		return core.Pick(r, []string{"http", "80a", "a80", "0x50", "8o", "1e3", "80.0", "8_0", "_80", "ff", "x"})
+	case 3, 4: // around the 16-bit limit, 5-7 digits
+		return core.Pick(r, []string{"65534", "65535", "65536", "65537", "65545", "65635", "66535", "75535", "99999", "100000", "165535", "655350", "655360", "999999", "1000000", "6553500", "9999999"})
+	case 5: // leading zeros
+		return strings.Repeat("0", r.Range(1, 8)) + core.Pick(r, []string{"", "0", "1", "80", "8080", "65535", "65536", "99999"})
+	case 6:
+		return core.Pick(r, []string{"+80", "-80", "+0", "-0", "-1", "+", "-", "+65535", "80+"})
+	case 7: // blanks and tabs
+		return core.Pick(r, []string{" 80", "8 0", "\t80", "8\t0", "80\t1", "80 1", " ", "\t", "  80", "80  x"})
+	case 8: // random digit strings of 5-7 digits
+		n := r.Range(5, 7)
+		var b strings.Builder
+		for i := 0; i < n; i++ {
+			b.WriteByte(byte('0' + r.Intn(10)))
+		}
+		return b.String()
+	case 9: // long digit strings (beyond uint16/uint32/uint64)
+		return core.Pick(r, []string{"4294967296", "4294967376", "18446744073709551615", "18446744073709551616", "18446744073709551696",
+			"00000000000000000000000000080", "100000000000000000000000000000", "99999999999999999999999", "0000000000000000000000065536"})
+	default:
+		return core.Pick(r, goodPorts)
 	}
-	h := core.Pick(r, []string{"proxy.example.com", "p", "10.0.0.1", "localhost", "a-b.c", "[::1]", "[2001:db8::1]", "::1", "[::1", "::1]", "", "h h", "[a]b", "[]"})
+}
+
+// genHostText: the host part of an address as written (brackets included).
+func genHostText(r *core.Rand) string {
+	switch r.Intn(20) {
+	case 0, 1:
+		return "" // empty host
+	case 2:
+		return "[]" // empty host in brackets
+	case 3, 4: // blanks and tabs inside the host
+		return core.Pick(r, []string{"h h", "h\th", " h", "\th", "h\t", "pro xy.example.com", "10.0.0.1 ", "[:: 1]", "[::1\t]", "[ ]", "[\t::1]", "a\tb.c"})
+	case 5, 6: // IPv6 literals without brackets
+		return core.Pick(r, []string{"::1", "2001:db8::1", "fe80::1", "::", "::ffff:10.0.0.1", "1:2:3:4:5:6:7:8"})
+	case 7: // broken brackets
+		return core.Pick(r, []string{"[::1", "::1]", "[a]b", "[[::1]]", "[::1]]", "a[b]", "[", "]", "[::1]x"})
+	case 8, 9: // IPv6 literals in brackets
+		return core.Pick(r, []string{"[::1]", "[2001:db8::1]", "[fe80::1]", "[::]", "[::ffff:10.0.0.1]", "[1:2:3:4:5:6:7:8]", "[fe80::1%eth0]"})
+	case 10: // brackets around something else
+		return core.Pick(r, []string{"[p]", "[10.0.0.1]", "[proxy.example.com]"})
+	default:
+		return core.Pick(r, goodHosts)
+	}
+}
+
+func genHostPort(r *core.Rand) string {
+	if r.Chance(40) { // a valid address
+		return core.Pick(r, goodHosts) + ":" + core.Pick(r, goodPorts)
+	}
+	h := genHostText(r)
 	switch r.Intn(12) {
 	case 0:
 		return h // missing port
 	case 1:
-		return h + ":" // empty port
-	case 2:
-		return h + ":http"
-	case 3:
 		return h + ":80:90"
-	case 4:
-		return h + ":99999"
-	case 5:
-		return h + ": 80"
+	case 2:
+		return h + ":" + core.Pick(r, goodPorts)
+	case 3:
+		return core.Pick(r, goodHosts) + ":" + genPortText(r)
 	default:
-		return h + ":" + core.Pick(r, []string{"80", "8080", "3128", "1080", "443", "1", "65535", "0"})
+		return h + ":" + genPortText(r)
 	}
 }
 
